@@ -22,7 +22,16 @@ type Constant interface {
 
 // String returns a representation the 32-bit float which is guaranteed to be
 // parsed as a floating point constant by the Go assembler.
-func (f F32) String() string { return asmfloat(float64(f), 32) }
+func (f F32) String() string {
+	s := asmfloat(float64(f), 32)
+	// The assembler parses floating point literals at 64-bit precision and then
+	// converts to 32 bits. In rare cases this double rounding does not recover f
+	// from its shortest 32-bit representation: fall back to the exact 64-bit one.
+	if x, err := strconv.ParseFloat(s, 64); err != nil || float32(x) != float32(f) {
+		return asmfloat(float64(f), 64)
+	}
+	return s
+}
 
 // String returns a representation the 64-bit float which is guaranteed to be
 // parsed as a floating point constant by the Go assembler.
